@@ -4,6 +4,7 @@ import multiprocessing as mp
 
 from collections.abc import Iterator
 from queue import Empty
+from itertools import count
 from typing import Iterable, Mapping, Callable, Union, Any
 
 from coba.primitives import Filter, Line
@@ -37,10 +38,11 @@ from coba.pipes.sinks   import QueueSink
 spawn_context = mp.get_context("spawn")
 
 class UniqueKey:
-    N = 0
+    #keys are made by completion callbacks on several threads at once: next() on a count is a
+    #single step while reading a counter and incrementing it afterwards can hand out a key twice
+    _ids = count()
     def __init__(self):
-        self._n = UniqueKey.N
-        UniqueKey.N += 1
+        self._n = next(UniqueKey._ids)
     def __hash__(self) -> int:
         return self._n
     def __eq__(self, value: object) -> bool:
